@@ -447,3 +447,36 @@ Example C08_shipped_overlap_example :
   pair_mem ("logging trap", "logging") (shipped_overlaps hw_Arista) = true /\
   pair_mem ("service", "switch") (shipped_overlaps hw_Arista) = false.
 Proof. vm_compute. split; reflexivity. Qed.
+
+(* ====================================================================================================
+   "... except where the rulebook pins a negated command to an explicit position" (Spec/P_C08s.v, Proofs/OrderPin.v).
+   For any row matcher, regexp source function, negation function, exit word and ordering rulebook: when exactly
+   one %order_reverse rule in scope (position k) matches a row directly and no ordinary rule in scope mentions the
+   row through a regexp whose weight exceeds the pinned rule's ([pin_of] = Some k: the usual shipped pair `X *` ...
+   `<negation> X * %order_reverse`, whose weights tie, next to a lighter catch-all `~`), get_order gives the removal
+   command with that row the order k and makes it direct - the clause `pin` that the C08 check evaluates on real
+   patches computed with the shipped rulebooks (harness/shipped_run.py), where C08_rank does not apply because two
+   rules mention the row.
+   ==================================================================================================== *)
+From Annet Require Import Spec.P_C08s Proofs.OrderPin.
+
+Theorem C08_rank_pinned rmatch rsrc rrev block_exit sc ordering row k :
+  pin_of rmatch rsrc rrev block_exit sc ordering row = Some k ->
+  exists ch, get_order rmatch rsrc rrev block_exit ordering row false sc = (ZFin (Z.of_nat k), true, ch).
+Proof. exact (rank_pinned rmatch rsrc rrev block_exit sc ordering row k). Qed.
+Print Assumptions C08_rank_pinned.
+
+(* non-vacuity, with the real rule language (Model/Pattern.v): `pool *`, a catch-all, `port *`, then the pinned
+   removal of a pool; the removal of a pool is pinned behind the ports, an added row starting with the negation
+   word is not *)
+Open Scope string_scope.
+Definition pin_rules : list orule :=
+  [ORule "pool *" "pool *" false false None []; ORule "~" "~" false false None [];
+   ORule "port *" "port *" false false None []; ORule "undo pool * %order_reverse" "undo pool *" true false None []].
+Example C08_rank_pinned_nonvacuous :
+  pin_of pm psrc (fun p => reverse_row p "undo") "quit" (Some "patch") pin_rules "undo pool P1" = Some 3 /\
+  fst (get_order pm psrc (fun p => reverse_row p "undo") "quit" pin_rules "undo pool P1" false (Some "patch")) = (ZFin 3, true) /\
+  fst (get_order pm psrc (fun p => reverse_row p "undo") "quit" pin_rules "undo pool P1" true (Some "patch")) = (ZFin 0, true) /\
+  pin_of pm psrc (fun p => reverse_row p "undo") "quit" (Some "patch") pin_rules "port X1" = None.
+Proof. vm_compute. repeat split; reflexivity. Qed.
+Open Scope list_scope.
